@@ -62,6 +62,21 @@ def run(s):
         text = 'cr' if h % 6 == 5 else 'hostile'
         K.fuzz_history(s, h, w, steps=(5, 30), text=text, direct=0.25)
     s.hist['fuzz_histories_total'] = n
+    # histories that end with a roDelete addressed to another roID followed by more messages, a second roDelete included
+    for h in range(40 if q else 1500):
+        if not s.mine(h):
+            continue
+        rng = s.rng('twoends', h)
+        pool = gen.text_pool('hostile')
+        ro_txt = gen.rand_ro(rng, n_stories=rng.randint(0, 4), pool=pool)
+        ro = s.load(ro_txt)
+        from ..canon import Abs
+        ids = gen.Ids('E%d.' % h)
+        msgs = [B.msg_doc('roDelete', 50, ro_id=rng.choice(['RO', 'ELSEWHERE', 'ELSEWHERE']))]
+        msgs += [gen.rand_message(rng, Abs(ro_txt), rng.choice(B.ALL_KINDS), 60 + k, ids, pool=pool) for k in range(2)]
+        msgs += [B.msg_doc('roDelete', 70, ro_id=rng.choice(['RO', 'ELSEWHERE']))]
+        for m_ in msgs:
+            ro, err, v, ev = s.step(ro, m_, {'two-ends': h})
 
 
 replay = K.replay_transition
